@@ -530,6 +530,13 @@ func (h *clH) decrease(q clPos, who int, full bool) string {
 		case 2:
 			amt = sdkmath.LegacyNewDecFromBigIntWithPrec(e.R.Big(30), 18)
 		}
+		if e.R.N(12) == 0 {
+			// malformed stream: a negative (or zero) amount of liquidity to withdraw
+			amt = amt.Neg()
+			if e.R.N(3) == 0 {
+				amt = sdkmath.LegacyZeroDec()
+			}
+		}
 	}
 	pre := h.snapshot()
 	e.In("decrease %s %d %s", accName(who), q.id, amt)
